@@ -581,6 +581,7 @@ class Interp:
         self.prog, self.cls = prog, cls
         self.assume = assume  # textual test -> outcome, for tests the domain cannot decide (np.isinf(h) ...)
         self.undecided_tests: list[str] = []
+        self.owner = None  # ClassInfo of the method whose body is interpreted (run_method)
         self.uncertain_flow: str | None = None  # the test of an undecided `if` one of whose arms returns or raises
         self.infinite: set[str] = set()  # symbols assumed infinite on this path
         self.roots: RootsOf | None = None
@@ -907,6 +908,14 @@ class Interp:
                 return proto.rebuild([self.ev(a_, env) for a_ in e.args], {k_.arg: self.ev(k_.value, env) for k_ in e.keywords if k_.arg})
             return Opaque("type(...)(...) of an object that is not symbolic")
         name = f.attr if isinstance(f, ast.Attribute) else f.id if isinstance(f, ast.Name) else ""
+        if (isinstance(f, ast.Attribute) and isinstance(f.value, ast.Call) and isinstance(f.value.func, ast.Name) and f.value.func.id == "super" and not f.value.args
+                and self.owner is not None and name not in ("__init__", "__new__") and self.depth < 6):
+            # super().name(...): the next definition along the MRO of the class whose method is running, on the same receiver
+            nxt = next((c for c in self.prog.mro(self.owner)[1:] if name in c.methods), None)
+            recv_name = next(iter(env), None)
+            if nxt is not None and recv_name is not None:
+                return self.run_method(nxt.methods[name], env[recv_name], [self.ev(a_, env) for a_ in e.args], {k_.arg: self.ev(k_.value, env) for k_ in e.keywords if k_.arg})
+            return Opaque("super() call that is not resolved")
         is_np = isinstance(f, ast.Attribute) and isinstance(f.value, ast.Name) and f.value.id in ("np", "numpy", "math")
         if isinstance(f, ast.Attribute) and not is_np:
             try:
@@ -931,8 +940,14 @@ class Interp:
                 if m_ is not None and self.depth < 5:
                     return self.run_method(m_, recv, [self.ev(a_, env) for a_ in e.args], {k_.arg: self.ev(k_.value, env) for k_ in e.keywords if k_.arg})
                 return Opaque(f"method {name}")
-            if isinstance(recv, SymObject) and hasattr(recv, name):
+            if isinstance(recv, SymObject) and hasattr(recv, name) and not (name.startswith("__") and not callable(getattr(recv, name, None))):
                 return getattr(recv, name)(*[self.ev(a_, env) for a_ in e.args])
+            if isinstance(recv, TensorSym) and self.generic and self.depth < 6 and getattr(recv, "kinds", None):
+                # a method of the library class the tensor stands for, most derived class first: interpreted on the symbolic receiver
+                owners = [c for c in self.prog.classes.values() if c.name in recv.kinds and name in c.methods and not c.methods[name].is_property]
+                if owners:
+                    own = max(owners, key=lambda c: len(self.prog.mro(c)))
+                    return self.run_method(own.methods[name], recv, [self.ev(a_, env) for a_ in e.args], {k_.arg: self.ev(k_.value, env) for k_ in e.keywords if k_.arg})
         if name == "cast" and len(e.args) == 2 and not e.keywords:
             return self.ev(e.args[1], env)  # typing.cast returns its second argument
         if name not in self.hooks and name:
@@ -1236,6 +1251,9 @@ class Interp:
                     return tuple(reversed(out_))
             if name == "isinstance" and len(e.args) == 2:
                 v = self.ev(e.args[0], env)
+                if isinstance(v, int) and isinstance(e.args[1], ast.Name) and e.args[1].id in ("int", "bool", "float", "str") and e.args[1].id not in env:
+                    # a python integer the rule itself passed in (a power, a dimension)
+                    return {"int": True, "bool": isinstance(v, bool), "float": False, "str": False}[e.args[1].id]
                 names_ = []
                 for x in (e.args[1].elts if isinstance(e.args[1], ast.Tuple) else [e.args[1]]):
                     # a class named directly, or a variable / parameter that holds a class
@@ -1405,6 +1423,7 @@ class Interp:
         env2.update(kwargs)
         sub = Interp(self.prog, self.cls, self.assume)
         sub.depth = self.depth + 1
+        sub.owner = m.cls  # the class whose method body runs: `super().name(...)` continues along its MRO
         sub.infinite, sub.quadric_ctors = self.infinite, self.quadric_ctors
         sub.trig, sub.rules, sub.hooks, sub.heights, sub.ratio_mode, sub.generic = self.trig, self.rules, self.hooks, self.heights, self.ratio_mode, self.generic
         sub.module_constants, sub._const_cache = self.module_constants, self._const_cache
@@ -1413,6 +1432,8 @@ class Interp:
         except _Done as d:
             return d.matrix
         except _Raise:
+            if self.generic:
+                raise
             return Opaque("the method raises")
         return None
 
@@ -3163,7 +3184,8 @@ def rule_action_values(run: Run, prog: Program, part: str = "incidence") -> int:
             return TransSym(self.array)
 
         def rebuild(self, args_, kw_):
-            return TransSym(args_[0]) if args_ and isinstance(args_[0], Table) and len(args_[0].shape) == 2 else Opaque("transformation")
+            a0 = args_[0].array if args_ and isinstance(args_[0], TensorSym) else args_[0] if args_ else None
+            return TransSym(a0) if isinstance(a0, Table) and len(a0.shape) == 2 else Opaque("transformation")
 
         def inverse(self):
             # TransformationTensor.inverse is interpreted from the source; `inv` is read as the adjugate (the inverse up to the scalar det T,
@@ -3267,6 +3289,37 @@ def rule_action_values(run: Run, prog: Program, part: str = "incidence") -> int:
             raise Unknown(f"the composition does not return a transformation ({getattr(res_, 'why', type(res_).__name__)[:50]})")
         return res_
 
+    def power(t_: "TransSym", k: int) -> "TransSym":
+        tt = prog.find_cls("TransformationTensor")
+        m_ = prog.lookup(tt, "__pow__") if tt else None
+        if m_ is None:
+            raise Unknown("TransformationTensor.__pow__ not found")
+        it_ = Interp(prog, None, {})
+        it_.generic = True
+        it_.hooks = {**hooks_for(it_), "inv": lambda a_, k_: _adjugate_table(a_[0]) if a_ and isinstance(a_[0], Table) else Opaque("inv"),
+                     "identity": lambda a_, k_: TransSym(Table.full((a_[0] + 1, a_[0] + 1), lambda idx: LP.const(1 if idx[0] == idx[1] else 0)))
+                     if a_ and isinstance(a_[0], int) and len(a_) == 1 and not k_ else Opaque("identity")}
+        res_ = it_.run_method(m_, t_, [k, None], {})
+        if not isinstance(res_, TransSym) or not isinstance(res_.array, Table):
+            raise Unknown(f"the power does not return a transformation ({getattr(res_, 'why', type(res_).__name__)[:60]})")
+        return res_
+
+    def c_power(k: int):
+        def compute(sym, n_):
+            t_, _ = trans_(sym, n_)
+            x_ = vec_(sym, "p", n_, True)
+            t_.__dict__["dim"] = n_ - 1
+            t_.__dict__["free_indices"] = 0
+            left = apply(x_, power(t_, k))
+            right = x_
+            for _ in range(abs(k)):
+                right = apply(right, t_)
+            if k < 0:
+                # t**-k undoes k applications: compare t**k applied to t^|k| x with x
+                return prop(apply(right, power(t_, k)).array, x_.array)
+            return prop(left.array, right.array)
+        return compute
+
     def c_compose(point: bool):
         def compute(sym, n_):
             s_, det_s = trans_(sym, n_, "s")
@@ -3350,6 +3403,11 @@ def rule_action_values(run: Run, prog: Program, part: str = "incidence") -> int:
                 n_ob += 1
                 judge(label, c_inverse(point), "the matrix of inverse() applied to t*x is a non-zero polynomial multiple of x",
                       "the matrix of inverse() applied to t*x is not a multiple of x: the inverse does not undo the action", n)
+            if n == 3:
+                for k in (0, 1, 2, 3, -1, -2):
+                    n_ob += 1
+                    judge(f"t**{k} on a point of {space}", c_power(k), f"t**{k} acts like {abs(k)} application(s) of t" + (" undone" if k < 0 else ""),
+                          f"t**{k} does not act like {abs(k)} application(s) of t" + (" undone" if k < 0 else ""), n)
             for label, point in ((f"(s * t) * x and s * (t * x) for a point of {space}", True), (f"(s * t) * x and s * (t * x) for a line of {space}", False)):
                 if n == 4 and not point:
                     continue  # (the adjugate of a product of two symbolic 4x4 matrices: out of budget)
